@@ -331,14 +331,24 @@ def outputs(stmts, var_spec=None):
     """[(input template, output template)] of a statement list whose first
     statement assigns an f-string with a format spec to a variable."""
     first = stmts[0]
-    if not (isinstance(first, ast.Assign) and
-            isinstance(first.value, ast.JoinedStr) and
-            len(first.value.values) == 1 and
-            isinstance(first.value.values[0], ast.FormattedValue) and
-            first.value.values[0].format_spec is not None and
-            isinstance(first.targets[0], ast.Name)):
+    spec_node = None
+    if isinstance(first, ast.Assign) and \
+            isinstance(first.targets[0], ast.Name):
+        v = first.value
+        if isinstance(v, ast.JoinedStr) and len(v.values) == 1 and \
+                isinstance(v.values[0], ast.FormattedValue) and \
+                v.values[0].format_spec is not None:
+            spec_node = v.values[0].format_spec
+        elif isinstance(v, ast.Call) and isinstance(v.func, ast.Name) and \
+                v.func.id == 'format' and len(v.args) == 2 and \
+                not v.keywords:
+            # s = format(x, SPEC): the same as f"{x:SPEC}"
+            sp = v.args[1]
+            spec_node = sp if isinstance(sp, ast.JoinedStr) else \
+                ast.JoinedStr(values=[sp]) if isinstance(sp, ast.Constant) \
+                else None
+    if spec_node is None:
         raise Unsupported('the block does not start with s = f"{x:SPEC}"')
-    spec_node = first.value.values[0].format_spec
     # the spec is constant text, possibly with constant fields nested in it
     # (`{x:.{11}G}` after a helper with a `digits` parameter was inlined)
     if not isinstance(spec_node, ast.JoinedStr):
